@@ -4,6 +4,7 @@ import FrappyProofs.Lemmas.CommRate
 import FrappyProofs.Lemmas.CommBook
 import FrappyProofs.Lemmas.CommTimeout
 import FrappyProofs.Lemmas.CommRet
+import FrappyProofs.Lemmas.CommCallbacks
 import FrappyModel.Generated.C16
 /-
 C16 — property theorems (nothing but property theorems and their non-vacuity examples).
@@ -564,6 +565,61 @@ theorem reply_own_ret (cfg : Cfg) (cbs : List Nat) (evs : List TEv) (hacc : Acce
           · simp at this
       rw [hrs] at hl
       exact hq.q c l hl hnidle
+
+/-- Callbacks once — for EVERY accepted run: let caller `c` connect successfully at position i and announce
+`is_connected = true` at v (its next event), after the communicator had closed a connection before (some `hclose`
+before v: a REconnect, clean or not).  Then the events of `c` that follow are, one by one and in order, the runs of the
+callbacks registered at v: the j-th event of `c` after v is the run of the j-th registered callback
+(j < number of registered callbacks).  So every registered callback runs exactly once (the registered names are
+distinct keys), before `c` does anything else. -/
+theorem callbacks_once_run (cfg : Cfg) (cbs : List Nat) (evs : List TEv) (hacc : Accepted cfg cbs evs)
+    (c i v m : Nat) (od : Bool) (hiv : i < v) (hvm : v < m)
+    (hi : evAt evs i = some (.connect c true od)) (hv : evAt evs v = some (.isconn c true))
+    (hno : ∀ x, i < x → x < v → whoAt evs x ≠ some c)
+    (hh : ∃ h0, h0 < v ∧ isHclose (evAt evs h0) = true)
+    (hm : whoAt evs m = some c)
+    (hj : countOf evs c v m < (registeredAt cbs evs v).length) :
+    ∃ keep, evAt evs m = some (.cb c ((registeredAt cbs evs v).getD (countOf evs c v m) 0) keep) := by
+  unfold Accepted at hacc
+  cases hex : exec { cfg := cfg, cbsReg := cbs } evs with
+  | none => simp [hex] at hacc
+  | some sf =>
+    have hmlt : m < evs.length := by
+      false_or_by_contra; rename_i hn
+      simp [whoAt, evAt_none evs m (by omega)] at hm
+    obtain ⟨em, hem⟩ : ∃ em, evs[m]? = some em := ⟨evs[m], by simp [hmlt]⟩
+    have hwho : em.ev.who = some c := by simpa [whoAt, evAt, hem] using hm
+    obtain ⟨sk, sk', hpre, hst⟩ := exec_cut _ evs m em hem sf hex
+    have hc := cinv_exec cfg cbs (evs.take m) sk hpre
+    have hlen : (evs.take m).length = m := by simp; omega
+    have hpc := hc.k3 c i od v hiv (by rw [evAt_take evs m i (by omega)]; exact hi)
+      (by rw [evAt_take evs m v hvm]; exact hv)
+      (fun x h1 h2 => by rw [whoAt_take evs m x (by omega)]; exact hno x h1 h2)
+      (by obtain ⟨h0, h0v, hx⟩ := hh; exact ⟨h0, h0v, by rw [evAt_take evs m h0 (by omega)]; exact hx⟩)
+      (by rw [hlen, countOf_take, registeredAt_take cbs evs m v (by omega)]; exact hj)
+    rw [hlen, countOf_take, registeredAt_take cbs evs m v (by omega)] at hpc
+    rw [List.drop_eq_getElem_cons (h := hj)] at hpc
+    rw [step_caller_form sk em c hwho] at hst
+    split at hst
+    · simp at hst
+    · obtain ⟨x, keep, hev, _⟩ := step_in_cbs _ sk' em.t c _ _ em.ev hst hpc
+      have hx : x = c := by rw [hev] at hwho; simpa [Ev.who] using hwho
+      subst hx
+      refine ⟨keep, ?_⟩
+      simp only [evAt, hem, Option.map_some, hev]
+      congr 2
+      simp [List.getD, List.getElem?_eq_getElem hj]
+
+/-- Polling resumes, the part that is a fact about `trigger_all` alone: after the poll thread's reconnect callback every
+polled module of the thread is due in the next turn (any turn at a time later than the module's poll interval — times
+are seconds since the epoch).  That the callback runs after EVERY reconnect is `callbacks_once_run` together with the
+fix of F34 (it stays registered); that the thread then takes its turn is judged on the real poll thread
+(`polling_resumes` monitor). -/
+theorem polling_resumes_partial (lastMain interval : Nat → Nat) (polled : List Nat) (now m : Nat)
+    (hm : m ∈ polled) (hnow : interval m < now) : pollDue (triggerAll lastMain polled) interval now m = true := by
+  unfold pollDue triggerAll
+  have : polled.contains m = true := by simpa using hm
+  simp [this, hnow]
 
 /-- stale data discarded, step level: a `send` is accepted only from the drain state, when everything that had
 arrived on the connection has been read away and the device has not closed; the receive buffer is emptied -/
